@@ -28,6 +28,8 @@ Judge(e) ==
                IN IF e.res.text = DocOf(D, run.canon) /\ (run.tie \/ run.amb \/ idmapOk(run.canon)) THEN "ok"
                   \* where the W3C text leaves a choice (a tie at 5.3 or 5.4.6) every outcome it allows is accepted - and nothing else
                   \* (the document and the identifier map come from two calls on two containers: each has to be an outcome, not both the same one)
+                  \* a run without tie and without ambiguity has one outcome: nothing to look for (and the set-valued reading is costly)
+                  ELSE IF ~(run.tie \/ run.amb) THEN (IF e.res.text # DocOf(D, run.canon) THEN "differs-from-w3c-rdfc10" ELSE "idmap-differs")
                   ELSE LET cs == OutcomeCanons(D) IN
                        IF ~\E c \in cs : DocOf(D, c) = e.res.text THEN "differs-from-w3c-rdfc10"
                        ELSE IF ~\E c \in cs : idmapOk(c) THEN "idmap-differs" ELSE "ok"
